@@ -200,7 +200,7 @@ def run_check(spec: Dict[str, Any], tier: str, seed: int, jobs: int, max_wall: f
         tasks: List[Tuple[int, str, int, str]] = []
         for b in spec["batches"]:
             n = b["runs"][tier]
-            if runs_override is not None:
+            if runs_override is not None and n > 0:
                 n = max(1, int(runs_override * n / max(1, sum(x["runs"][tier] for x in spec["batches"]))))
             for r in range(n):
                 tasks.append((seed, b["name"], r, tier))
